@@ -1,13 +1,13 @@
-\* one client, root + 2 child tasks, 4 contexts, depth 3, 3 wire requests: repaired propagation, the property holds
+\* chunked responses (on_request_end several times per wire request)
 SPECIFICATION Spec
 CONSTANTS
   Tasks <- T3
   Roots <- R1
-  MaxCtx = 4
+  MaxCtx = 3
   MaxWire = 3
   MaxDepth = 3
   MaxKids = 2
-  MaxChunks = 0
+  MaxChunks = 2
   MinMaxPropagation = TRUE
 VIEW view
 INVARIANT TypeOK
